@@ -74,9 +74,10 @@ Files ==
     CASE Prop = "C05" -> ExprFamily(C05Inst) \cup StmtFamily(C05Inst)
       [] Prop = "C06" -> DeclFamily(FnProduct \cup VarProduct) \cup OrderFamily \cup BetweenFamily(FnProduct \cup {v \in VarProduct : Full})
       [] Prop = "C07" -> ExprFamily(C07Inst) \cup DeclFamily(DestructShapes)
+                         \cup {L(i.label \o "@stmt", HostFile("function", <<ExprStmt(i.tree)>>)) : i \in DivMulChainInst}
                          \cup {L(i.label, i.tree) : i \in PragmaFiles}
                          \cup StmtFamily({I("destruct:position", "S", DestructStmt)})
-      [] Prop = "C08" -> ExprFamily(WriteInst) \cup DeclFamily(VarProduct \cup CalldataFns)
+      [] Prop = "C08" -> ExprFamily(WriteInst) \cup DeclFamily(VarProduct \cup CalldataFns \cup CalldataTwo)
                          \cup {L(i.label, i.tree) : i \in ImmFiles}
 
 VARIABLES file
